@@ -290,6 +290,68 @@ def run_case(case, ctx, monitor):
                 return
 
 
+def run_sequences(ctx, seed):
+    """Divisions in sequence: the same operand objects again after an in-place update, and a
+    division after one that raised half-way. Every division stands on its own."""
+    import numpoly
+    import warnings
+
+    rng = numpy.random.default_rng(seed)
+    q0, q1 = numpoly.variable(2)
+    for n in range(40):
+        case = {"class": "sequence", "n": n}
+        if not ctx.begin(case):
+            continue
+        facts = {"op": "poly_divmod", "class": "sequence", "failure": "value"}
+        c = rng.integers(1, 5, size=3)
+        p = numpoly.polynomial([q0 ** 2 + c[0], c[1] * q0 * q1 + 4.0, q1 ** 3 - c[2] * q0])
+        # (1) same objects, divisor updated in place in between
+        divisor = numpy.array([2.0, 4.0, 8.0])
+        first = numpoly.poly_divmod(p, divisor)
+        divisor *= 2.0
+        second = numpoly.poly_divmod(p, divisor)
+        want = numpoly.poly_divmod(numpoly.polynomial(p), numpy.array([4.0, 8.0, 16.0]))
+        ctx.evaluated(("sequence", "update", n % 4), True)
+        ctx.count("sequence_divisions")
+        if O.mismatch(second[0], O.result_model(want[0])) or O.mismatch(second[1], O.result_model(want[1])) \
+                or O.mismatch(first[0] - 2 * second[0], M.wrap(M.abstract(first[0] * 0))):
+            ctx.violation(dict(facts, step="after_update"),
+                          f"p / c, c *= 2, p / c: second quotient {second[0]} (expected {want[0]})", case)
+            ctx.end()
+            continue
+        # ... the polynomial dividend updated in place through its raw view
+        raw = p.values
+        for key in raw.dtype.names:
+            raw[key] *= 3
+        third = numpoly.poly_divmod(p, divisor)
+        if O.mismatch(third[0], O.result_model(3 * second[0])):
+            ctx.violation(dict(facts, step="after_update"),
+                          f"dividend tripled in place: quotient {third[0]} (expected {3 * second[0]})", case)
+            ctx.end()
+            continue
+        # (2) a scalar division that raises inside the reduction, then an ordinary array division
+        try:
+            with numpy.errstate(all="raise"), warnings.catch_warnings():
+                warnings.simplefilter("error")
+                numpoly.poly_divmod(1e200 * q0 ** 2 + 1, 1e-200 * q0)
+        except Exception:  # pylint: disable=broad-except
+            ctx.count("sequence_raised")
+        try:
+            numpoly.poly_divmod(q0 + 1, q0, bogus_keyword=True)
+        except Exception:  # pylint: disable=broad-except
+            ctx.count("sequence_raised")
+        dividend = q0 ** 3 + q1
+        divs = numpoly.polynomial([q1 ** 2 - 2 * q0, 2, q0])
+        q, r = numpoly.poly_divmod(dividend, divs)
+        ctx.evaluated(("sequence", "after_error", n % 4), True)
+        back = q * divs + r
+        if tuple(q.shape) != (3,) or tuple(r.shape) != (3,) or \
+                O.mismatch(back, M.abstract(numpoly.polynomial([dividend] * 3))):
+            ctx.violation(dict(facts, step="after_error"),
+                          f"division after a division that raised: q={q} r={r}", case)
+        ctx.end()
+
+
 def run(spec, ctx):
     from vf.monitors.step import StepMonitor
 
@@ -300,6 +362,8 @@ def run(spec, ctx):
             ctx.run_case(spec["replay_case"], lambda c: run_case(c, ctx, monitor))
             return
         g = G.Gen(spec["seed"] * 1000003 + spec["part"] * 7919 + 5)
+        if spec["part"] == 0:
+            run_sequences(ctx, spec["seed"])
         for i in range(spec["n"]):
             case = gen_case(g)
             if i < 2 and spec["part"] == 0:
